@@ -3,6 +3,7 @@ Symbolic shapes of /repo objects used by contract ``setup`` functions, and read-
 contract clauses.  A shape allocates an *arbitrary* instance (every field a fresh symbol).
 """
 import z3
+from pyvc.values import FA
 
 from pyvc.state import SymMap, SymSet, SymSeq
 from pyvc.values import PyV, NONE, Ref, SymV, SymB, SymI, lift, lower
@@ -88,3 +89,173 @@ def B(v):
     """python-side bool-like value -> z3 Bool"""
     from pyvc.values import as_bool_term, as_z3
     return as_z3(as_bool_term(v))
+
+
+# ======================================================================================
+# manager / dag / ctx
+# ======================================================================================
+from pyvc.libmodels import GraphOps, Arr, new_world, GRAPH_CLS, NODE_FIELDS, EDGE_FIELDS  # noqa: E402
+from pyvc.values import SymS, mk_str, truthy_term, TRUE, FALSE  # noqa: E402
+
+MANAGER_PY = 'ml_pipeline_engine/dag/manager.py'
+MGR = f'{MANAGER_PY}::DAGRunConcurrentManager'
+LOCK = f'{MANAGER_PY}::DAGConcurrentManagerLock'
+DAG_CLS = 'ml_pipeline_engine/dag/dag.py::DAG'
+CTX_CLS = 'ml_pipeline_engine/context/dag.py::DAGPipelineContext'
+CHART_CLS = 'ml_pipeline_engine/chart.py::PipelineChart'
+
+
+def new_lock_manager(it):
+    from pyvc.values import ClsRef
+    st = it.st
+    ev = st.alloc('defaultdict', factory=ClsRef('asyncio.Event'), map={})
+    cd = st.alloc('defaultdict', factory=ClsRef('asyncio.Condition'), map={})
+    return new_obj(it, LOCK, node_ids=None, event_lock_store=ev, condition_lock_store=cd)
+
+
+def new_ctx(it, hint='ctx'):
+    st = it.st
+    ik = st.alloc('dict', map=SymMap.fresh(st, 'input_kwargs'))
+    ems = st.alloc('list', items=SymSeq.fresh(st, 'event_managers'))
+    return new_obj(it, CTX_CLS, chart=SymV(st.fresh_val('chart')), pipeline_id=SymV(st.fresh_val('pipeline_id')),
+                   input_kwargs=ik, meta=SymV(st.fresh_val('meta')), artifact_store=SymV(st.fresh_val('store')),
+                   _event_managers=ems)
+
+
+def new_dag(it, hint='dag'):
+    st = it.st
+    g = GraphOps.fresh_base(it, 'G')
+    nm = st.alloc('dict', map=SymMap.fresh(st, 'node_map'))
+    return new_obj(it, DAG_CLS, graph=g, input_node=SymV(st.fresh_val('input_node')),
+                   output_node=SymV(st.fresh_val('output_node')), node_map=nm,
+                   is_process_pool_needed=SymB(st.fresh_bool('need_proc')),
+                   is_thread_pool_needed=SymB(st.fresh_bool('need_thr')))
+
+
+def new_manager(it):
+    st = it.st
+    w = new_world(it)
+    dag = new_dag(it)
+    ctx = new_ctx(it)
+    storage = new_storage(it)
+    tasks = st.alloc('set', elems=SymSet.fresh(st, 'coro_tasks'))
+    memo = st.alloc('dict', map={})
+    mgr = new_obj(it, MGR, ctx=ctx, dag=dag, _node_storage=storage, _lock_manager=new_lock_manager(it),
+                  _memorization_store=memo, _coro_tasks=tasks, _alias_run_method='run')
+    # representation invariant: registered tasks are Task values created before now
+    v = z3.Const('tv', PyV)
+    ts = st.getf(tasks, 'elems')
+    nt = st.getf(w, 'next_task').t
+    st.assume(FA([v], z3.Implies(ts.contains(v), z3.And(PyV.is_task(v), PyV.tid(v) < nt, PyV.tid(v) >= 0)),
+                        patterns=[ts.contains(v)]))
+    st.assume(nt >= 0)
+    return mgr
+
+
+def new_subdag(it, mgr, hint='sub'):
+    """an arbitrary (sub)graph object handed to _run_dag & co: a 'sub' view of the manager's graph with a fixed
+    node set and arbitrary flags"""
+    st = it.st
+    root = st.getf(st.getf(mgr, 'dag'), 'graph')
+    ns = SymSet.fresh(st, hint + '_nodes')
+    g = new_obj(it, GRAPH_CLS, g_kind='sub', g_base=root, g_nodes=ns, g_fedge=None,
+                is_recurrent=SymB(st.fresh_bool(hint + '_is_rec')), is_oneof=SymB(st.fresh_bool(hint + '_is_oneof')),
+                is_nested_oneof=SymB(st.fresh_bool(hint + '_is_nested')), source=SymV(st.fresh_val(hint + '_src')),
+                dest=SymV(st.fresh_val(hint + '_dest')), name=SymS(st.fresh_str(hint + '_name')))
+    st.setf(g, '_DiGraph__hash_value', None)
+    x = z3.Const('sdx', PyV)
+    st.assume(FA([x], z3.Implies(ns.contains(x), st.getf(root, 'g_nodes').contains(x)), patterns=[ns.contains(x)]))
+    return g
+
+
+class GV:
+    """read-only view of a *base* graph in a snapshot"""
+
+    def __init__(self, snap, g):
+        self.snap, self.g = snap, g
+        self.nodes = snap.getf(g, 'g_nodes')
+        self.edges = snap.getf(g, 'g_edges')
+
+    def node(self, x):
+        return self.nodes.contains(x)
+
+    def edge(self, u, v):
+        return self.edges.contains(PyV.tup2(u, v))
+
+    def na(self, name, n):
+        return self.snap.getf(self.g, f'na:{name}').at(n)
+
+    def ea(self, name, u, v):
+        return self.snap.getf(self.g, f'ea:{name}').at(PyV.tup2(u, v))
+
+    def is_switch(self, n):
+        return z3.And(self.node(n), self.na('is_switch', n) == TRUE)
+
+    def is_head(self, n):
+        return truthy_term(self.na('is_oneof', n))
+
+    def is_child(self, n):
+        return truthy_term(self.na('is_oneof_child', n))
+
+    def kw(self, u, v):
+        return self.ea('kwarg_name', u, v)
+
+    def sw_edge(self, u, v):
+        return truthy_term(self.ea('is_switch', u, v))
+
+    def case(self, u, v):
+        return self.ea('case_branch', u, v)
+
+    def addl(self, n):
+        return self.na('additional_data', n)
+
+    def attr_locs(self):
+        return [(self.g, f'na:{f}') for f in NODE_FIELDS] + [(self.g, f'ea:{f}') for f in EDGE_FIELDS]
+
+
+class MV:
+    """manager view in a snapshot"""
+
+    def __init__(self, snap, mgr):
+        self.snap, self.mgr = snap, mgr
+        self.dag = snap.getf(mgr, 'dag')
+        self.ctx = snap.getf(mgr, 'ctx')
+        self.S = StorageView(snap, snap.getf(mgr, '_node_storage'))
+        self.G = GV(snap, snap.getf(self.dag, 'graph'))
+        self.input = T(snap.getf(self.dag, 'input_node'), snap.state)
+        self.output = T(snap.getf(self.dag, 'output_node'), snap.state)
+        self.tasks_ref = snap.getf(mgr, '_coro_tasks')
+        self.tasks = snap.getf(self.tasks_ref, 'elems')
+        self.node_map = snap.getf(snap.getf(self.dag, 'node_map'), 'map')
+        self.input_kwargs_ref = snap.getf(self.ctx, 'input_kwargs')
+        self.input_kwargs = snap.getf(self.input_kwargs_ref, 'map')
+        self.world = snap.state.ghost.get('world')
+
+    def task_st(self, tid):
+        return self.snap.getf(self.world, 'task_st').at(tid)
+
+    def task_exc(self, tid):
+        return self.snap.getf(self.world, 'task_exc').at(tid)
+
+    def task_cancel(self, tid):
+        return self.snap.getf(self.world, 'task_cancel').at(tid)
+
+    def event_set(self, name):
+        return self.snap.getf(self.world, 'event_set').contains(name)
+
+
+class SubV:
+    """view of a sub-dag object (flags + fixed node set)"""
+
+    def __init__(self, snap, g):
+        self.snap, self.g = snap, g
+        self.kind = snap.getf(g, 'g_kind')
+        self.nodes = snap.getf(g, 'g_nodes') if self.kind in ('sub', 'base') else None
+        self.is_recurrent = B(snap.getf(g, 'is_recurrent'))
+        self.is_oneof = B(snap.getf(g, 'is_oneof'))
+        self.is_nested_oneof = B(snap.getf(g, 'is_nested_oneof'))
+        self.dest = T(snap.getf(g, 'dest'), snap.state)
+        self.source = T(snap.getf(g, 'source'), snap.state)
+
+    def node(self, x):
+        return self.nodes.contains(x)
